@@ -153,9 +153,19 @@ def mixed_file(ck, recs, G, seed):
     d = env.scratch("c05_mixed")
     pick = rnd.sample(recs, min(8, len(recs)))
     rows = []
+    def counts(k):
+        # three samples; some mutations have no reads at all in the first or the middle sample (zero depth followed by
+        # a covered sample)
+        c = [(14 + k, 3 + k), (2 * k + 1, 9), (30 - k, k)]
+        if k % 2 == 0:
+            c[0] = (0, 0)
+        if k % 3 == 1:
+            c[1] = (0, 0)
+        return c
+
     for k, rec in enumerate(pick):
         cfg = rec["cfg"]
-        for sn, (ref, alt) in (("S1", (14 + k, 3 + k)), ("S2", (2 * k + 1, 9))):
+        for sn, (ref, alt) in zip(("S1", "S2", "S3"), counts(k)):
             rows.append({"mutation_id": "mix%02d" % k, "sample_id": sn, "ref_counts": ref, "alt_counts": alt, "major_cn": cfg["major"], "minor_cn": cfg["minor"],
                          "normal_cn": cfg["normal"], "tumour_content": repr(cfg["t"][0] / cfg["t"][1]), "error_rate": repr(cfg["eps"][0] / cfg["eps"][1])})
     rnd.shuffle(rows)
@@ -169,7 +179,10 @@ def mixed_file(ck, recs, G, seed):
         if dp is None:
             ck.violation("C05|mixed|missing", "mutation mix%02d was not loaded" % k, {"cfg": rec["cfg"]})
             continue
-        for si, (ref, alt) in enumerate(((14 + k, 3 + k), (2 * k + 1, 9))):
+        if dp.value.shape[0] != 3:
+            ck.violation("C05|mixed|shape", "mutation mix%02d has %d likelihood rows for 3 samples" % (k, dp.value.shape[0]), {"cfg": rec["cfg"]})
+            continue
+        for si, (ref, alt) in enumerate(counts(k)):
             want = exact_grid(rec, ref, alt, "binomial", None)
             if float(np.max(np.abs(dp.value[si] - want))) > 1e-9 * (1 + float(np.max(np.abs(want)))):
                 ck.violation("C05|mixed|row", "in a file mixing copy numbers / error rates / tumour contents, the grid of mutation %d sample %d is not that of its own row %s" % (
